@@ -30,8 +30,8 @@ def jobs(tier):
         for e in ents:
             if not selected(e):
                 continue
-            if is_heavy(e):
-                continue          # secret exponents / shift counts: route A does not finish (DESIGN 3); outside the claim
+            if is_heavy(e) and n > 4:
+                continue          # secret exponents / shift counts: 2^n paths; decided at n = 4 only (stated bound)
             if n > 4 and ("arr" in e.tags or "comp" in e.tags):
                 continue
             js.append(dict(name="%s/n%d/plain" % (e.name, n), entry=e.name, backend="snarkjs",
@@ -102,11 +102,24 @@ def run_job(env, spec):
         pubt, privt = H.wire_terms(t)
         honest = {("pub", i): x for i, x in enumerate(pubt)}
         honest.update({("priv", i): x for i, x in enumerate(privt)})
-        nfix = sysm.propagate(honest, t.path.facts(), lambda f, g: H.solve(f, g, job.timeout))
+        slv = lambda f, g: H.solve(f, g, job.timeout)
+        nfix = sysm.propagate(honest, t.path.facts(), slv)
+        if is_heavy(entry) and len(sysm.free_wires()) > 12:
+            # composite gadgets (powers and shifts by a secret): determine wires step by step (route B)
+            step = lambda f, g: H.solve(f, g, 4000)
+            nfix += sysm.propagate_semantic(honest, [t.path.facts(linear_only=True)], step, window=job.cfg["n"] + 2)
         alts, names = soundness_goal(env, t, sysm)
-        facts = t.path.facts() + sysm.encode()
+        enc = sysm.encode()
+        facts = t.path.facts() + enc
         goal = z3.Or(alts)
-        st, m = H.solve(facts, goal, job.timeout, label="C02 %s path %d second-witness" % (job.name, pi))
+        # without the non-linear definitions of honest products first (a subset of the facts is sound for unsat and keeps
+        # the query in linear arithmetic); only a sat answer is re-examined under the full facts to obtain a real model
+        st, m = "sat", None
+        if t.path.prod_axiom_ids:
+            st, m = H.solve(t.path.facts(linear_only=True) + enc, goal, job.timeout,
+                            label="C02 %s path %d second-witness (linear facts)" % (job.name, pi))
+        if st != "unsat":
+            st, m = H.solve(facts, goal, job.timeout, label="C02 %s path %d second-witness" % (job.name, pi))
         job.obligation(st)
         if st == "unknown":
             job.inconclusive("path %d: solver unknown (%s)" % (pi, m))
@@ -146,7 +159,7 @@ def main(argv):
     rep.bounds = dict(bitlength=[4] if tier == "quick" else [4, 8, 16],
                       operand_magnitude="< 2^64" if tier == "quick" else "< 2^120",
                       adversary="every non-operand wire is a free field element in [0,p)",
-                      outside="secret exponents and shift counts (<< ** >> by a secret): route A does not terminate")
+                      secret_exponents_and_shift_counts="<< ** >> by a secret at bitlength 4 only")
     rep.assumptions = ["wires uniquely determined by a multiplication gate / division by a provably non-zero factor are fixed "
                        "to their honest hints (uses C01: the honest witness satisfies the constraints)",
                        "operands restricted to the path condition of a completed honest run",
